@@ -83,7 +83,7 @@ NormalCfg(c) ==       \* only the parameters a kind looks at vary
     /\ c.kind = "stage" => c.style # "tree"
     /\ c.kind \notin C24Kinds => c.pk = (CHOOSE p \in PosKinds : TRUE) /\ c.all /\ c.p0 = [d \in DOMAIN c.forest |-> CHOOSE z \in Positions : TRUE]
     /\ c.kind \in {"run", "lazy_stage"} => c.devs = <<>>
-    /\ c.kind \in {"subs", "suspend", "monitor_during", "fly_during"} => NoDup(c.devs)
+    /\ c.kind \in {"subs", "suspend", "monitor_during", "fly_during"} => NoDup(c.devs) /\ Elems(c.devs) \subseteq 1..3
     /\ c.kind \in C24Kinds => (c.all <=> c.devs = <<>>)
     /\ c.kind \notin {"subs", "suspend"} => Elems(c.devs) \subseteq DOMAIN c.forest
     /\ c.kind \notin {"stage", "lazy_stage"} => c.forest = CHOOSE f \in Forests : TRUE
